@@ -24,3 +24,15 @@ Qed.
 Theorem burst_exact (E B t : Z) (n : nat) : 1 <= E -> 0 <= B ->
   Z.of_nat (length (filter (fun d => d) (bdecide E B (full E B t) (repeat (1, t) n)))) = Z.min (Z.of_nat n) B.
 Proof. intros HE HB. unfold full. apply (burst_from E B t HE n B). lia. Qed.
+
+(* Refutation of the "exactly min(N,B)" clause when requests are NOT processed in timestamp order (the
+   transports stamp a request before it is queued, the actor serves the queue in arrival order): two unit
+   requests on a fresh key with max_burst 2 and one token per hour, stamped d = 1 microsecond apart and
+   served in the opposite order - the second one is denied (retry_after = d) although a token is left. *)
+Require Import TC.Limiter.KeyStep.
+Theorem burst_short_under_stamp_disorder :
+  exists E B t d, 1 <= E /\ 0 < d /\
+    let r1 := kstep E B None 1 (t + d) in
+    let r2 := kstep E B (fst r1) 1 t in
+    allowed (snd r1) = true /\ remaining (snd r1) = 1 /\ allowed (snd r2) = false /\ retry_after (snd r2) = d.
+Proof. exists 3600000000000, 2, 1700000000000000000, 1000. vm_compute. repeat split; discriminate. Qed.
